@@ -265,3 +265,35 @@ func vC08Renamed(env *Zlisp, name string, c vC08Canary, label string) {
 	vAssert(!c.effect(env, res, err), label+"-no-outside-effect-under-another-name")
 	vReach(label)
 }
+
+// vh_C08_afterplain: the sandbox holds whatever the process did before: an
+// ordinary (unsandboxed) interpreter is created, given the standard setup and
+// used; then a sandboxed interpreter gets the standard setup.  Every name
+// the sandboxed one binds is called directly with no argument and with each
+// canary string (the interpreters are built on every path, so the
+// exploration is smaller than in the harnesses above).
+func vh_C08_afterplain() {
+	vFormatOpaque(true)
+	vBudgetOK()
+	plain := NewZlisp()
+	plain.StandardSetup()
+	vEvalString(plain, `(def warmup (+ 1 2))`)
+	env := NewZlispSandbox()
+	env.StandardSetup()
+	names := vC08Names(env)
+	name := vPickString("name", names)
+	c := vC08MakeCanary()
+	defer c.cleanup()
+	var args []Sexp
+	if k := vChoice("arg", 5); k > 0 {
+		args = []Sexp{vC08Arg(env, k-1, c)}
+		if k == 2 { // a command string: also as (name "touch" path)
+			args = []Sexp{&SexpStr{S: "touch"}, &SexpStr{S: c.touchFile}}
+		}
+	}
+	vSetStepBudget(400000)
+	vObserve("name", name)
+	res, err, _ := vEval(env, vForm(env, name, args...))
+	vAssert(!c.effect(env, res, err), "afterplain-no-outside-effect")
+	vReach("afterplain")
+}
